@@ -60,6 +60,11 @@ def main():
         meta["demo_passes_on_clean_tree"] = t0.returncode == 0
         os.remove(demo_dst)
         a = sh(["git", "apply", patch], cwd=d)
+        if a.returncode != 0:
+            # the tree has moved on since the change was written (later fix: commits): merge
+            a = sh(["git", "apply", "--3way", patch], cwd=d)
+            meta["applied_with_3way_merge"] = a.returncode == 0
+            sh(["git", "reset", "-q"], cwd=d)
         meta["patch_applies"] = a.returncode == 0
         if a.returncode != 0:
             print("patch does not apply:", a.stdout)
